@@ -59,11 +59,15 @@ class PieceVec(Value):
         return 'PieceVec(n=%r, %d segs, fft=%s, axis=%s)' % (self.n, len(self.segs), self.fft, self.axis)
 
 
-class Prod2(Value):
-    """The result of matrix products L @ A @ R (only the structure is kept)."""
+class Prod2(Shaped):
+    """The result of matrix products L @ A @ R: an array (so elementwise arithmetic applies) that
+    remembers its factors."""
 
     def __init__(self, left, arr, right):
         self.left, self.arr, self.right = left, arr, right
+        rows = left.n0 if left is not None else (arr.shape.items[0] if isinstance(arr, Shaped) and arr.shape.items else Unknown('rows'))
+        cols = right.n1 if right is not None else (arr.shape.items[1] if isinstance(arr, Shaped) and len(arr.shape.items) > 1 else Unknown('cols'))
+        Shaped.__init__(self, Tup([rows, cols]), 'matmul', origin=('matmul', left, arr, right))
 
     def __repr__(self):
         return 'Prod2(%r @ %r @ %r)' % (self.left, self.arr, self.right)
@@ -106,12 +110,9 @@ class KernelDomain(IndexDomain):
             return self._map(v, lambda e: it.call_value(ExtRef('numpy.exp'), [e], {}, node, None))
         if dotted in ('numpy.conj', 'numpy.conjugate') and args and isinstance(args[0], (Vec, Mat, PieceVec)):
             return self._map(args[0], lambda e: it.call_value(ExtRef('numpy.conj'), [e], {}, node, None))
-        if dotted in ('numpy.conj', 'numpy.conjugate') and args and isinstance(args[0], (Shaped, Prod2)):
+        if dotted in ('numpy.conj', 'numpy.conjugate') and args and isinstance(args[0], Shaped):
             it.emit('conj', target=args[0], node=node)
-            if isinstance(args[0], Shaped):
-                r = Shaped(args[0].shape, args[0].label, origin=('conj', args[0]))
-                return r
-            return Unknown('conj of product')
+            return Shaped(args[0].shape, args[0].label, origin=('conj', args[0]))
         if dotted == 'numpy.zeros' and args and self.rat(args[0]) is not None and not isinstance(args[0], Tup):
             return PieceVec(args[0])
         if last == 'next_fast_len' and args and self.rat(args[0]) is not None:
@@ -127,6 +128,9 @@ class KernelDomain(IndexDomain):
             it.emit('fft2', which=last, target=args[0], s=s, node=node, norm=kwargs.get('norm'))
             if s is not None and isinstance(s, Tup):
                 return Shaped(Tup(list(s.items)), last, origin=(last, args[0]))
+            return Shaped(args[0].shape, last, origin=(last, args[0]))
+        if last in ('fftshift', 'ifftshift') and args and isinstance(args[0], Shaped):
+            it.emit('shift', which=last, target=args[0], node=node)
             return Shaped(args[0].shape, last, origin=(last, args[0]))
         if dotted == 'numpy.iscomplexobj' and args:
             it.emit('iscomplexobj', arg=args[0], node=node)
@@ -166,6 +170,10 @@ class KernelDomain(IndexDomain):
                 return Vec(it.binop(op, a.elem, b.elem, node), a.n, a.idx, a.axis)
             if isinstance(a, Mat) and isinstance(b, Mat) and (a.idx0, a.idx1) == (b.idx0, b.idx1):
                 return Mat(it.binop(op, a.elem, b.elem, node), a.idx0, a.idx1, a.n0, a.n1)
+            if isinstance(a, Shaped) and isinstance(b, Mat) and isinstance(op, ast.Mult) or isinstance(b, Shaped) and isinstance(a, Mat) and isinstance(op, ast.Mult):
+                sarr = a if isinstance(a, Shaped) else b
+                it.emit('ewise', op='Mult', a=a, b=b, node=node)
+                return Shaped(sarr.shape, sarr.label, origin=('Mult', a, b))
             if isinstance(a, (Shaped,)) and isinstance(b, (Vec, PieceVec)) and isinstance(op, ast.Mult):
                 it.emit('bmul', target=a, vec=b, node=node)
                 return Shaped(a.shape, a.label, origin=('bmul', a, b))
@@ -195,14 +203,14 @@ class KernelDomain(IndexDomain):
     def _matmul(self, a, b, node):
         self.interp.emit('matmul', left=a, right=b, node=node)
         # L @ A  or  A @ R  or (L @ A) @ R
-        if isinstance(a, Mat) and isinstance(b, Shaped):
-            return Prod2(a, b, None)
-        if isinstance(a, Shaped) and isinstance(b, Mat):
-            return Prod2(None, a, b)
         if isinstance(a, Prod2) and a.right is None and isinstance(b, Mat):
             return Prod2(a.left, a.arr, b)
         if isinstance(a, Mat) and isinstance(b, Prod2) and b.left is None:
             return Prod2(a, b.arr, b.right)
+        if isinstance(a, Mat) and isinstance(b, Shaped):
+            return Prod2(a, b, None)
+        if isinstance(a, Shaped) and isinstance(b, Mat):
+            return Prod2(None, a, b)
         return Unknown('matmul')
 
     def augassign(self, op, target, val, node):
@@ -226,10 +234,6 @@ class KernelDomain(IndexDomain):
             if name == 'shape':
                 return Tup([v.n])
             if name == 'T':
-                return v
-            return None
-        if isinstance(v, Prod2):
-            if name == 'real':
                 return v
             return None
         return IndexDomain.getattr(self, v, name, node)
@@ -273,7 +277,7 @@ class KernelDomain(IndexDomain):
         return IndexDomain.store_subscript(self, target, idx, val, node)
 
     def isinstance(self, v, names):
-        if isinstance(v, (Vec, Mat, PieceVec, Prod2)):
+        if isinstance(v, (Vec, Mat, PieceVec)):
             return any(n in ('ndarray', 'Iterable') for n in names if isinstance(n, str))
         return IndexDomain.isinstance(self, v, names)
 
